@@ -218,6 +218,21 @@ def _bzero(n):
     return bytes(n)
 
 
+def _divw(hi, lo, d):
+    if d == 0:
+        raise EFail("div0")
+    q = ((hi << 64) | lo) // d
+    if q > M64:
+        raise EFail("overflow")
+    return q
+
+
+def _replace(s, i, r):
+    if i + len(r) > len(s):
+        raise EFail("replace")
+    return s[:i] + r + s[i + len(r):]
+
+
 def _bsqrt(b):
     return _ib(math.isqrt(_bi(b)))
 
@@ -282,6 +297,9 @@ PURE = {
     "Suffix": ("bu", _suffix),
     "SetBit": ("auu", _setbit),
     "SetByte": ("buu", _setbyte),
+    "Divw": ("uuu", lambda hi, lo, d: _divw(hi, lo, d)),
+    "Replace": ("bub", lambda s, i, r: _replace(s, i, r)),
+    "Sha3_256": ("b", lambda a: hashlib.sha3_256(a).digest()),
 }
 
 NARY = {"AndN": "And", "OrN": "Or", "AddN": "Add", "MulN": "Mul", "ConcatN": "Concat"}
